@@ -58,6 +58,7 @@ var c11Special = map[string][]string{
 
 var c11Inner = map[string]*refmodel.Grouping{
 	"by(a)": g(false, "a"), "by(a,b)": g(false, "a", "b"), "without(a)": g(true, "a"), "without(v,c)": g(true, "v", "c"),
+	"by()": g(false), "without()": g(true),
 }
 
 func g(without bool, labels ...string) *refmodel.Grouping {
@@ -262,7 +263,7 @@ func c11Run(r *vkit.Run) {
 					c11Check(r, c11Input{Series: sub, Unwrap: unwrap, Query: t.name, Range: rg, Bound: bound}, nil)
 					if unwrap {
 						// the range aggregation itself carries a grouping clause the outer ones must respect
-						for _, inner := range []string{"by(a)", "by(a,b)", "without(a)", "without(v,c)"} {
+						for _, inner := range []string{"by(a)", "by(a,b)", "without(a)", "without(v,c)", "by()", "without()"} {
 							c11Check(r, c11Input{Series: sub, Unwrap: true, Query: t.name, Range: rg, Bound: 0, Inner: inner}, nil)
 						}
 					}
